@@ -22,6 +22,10 @@ def handleArmRun (args obs : List String) : Verdict := Id.run do
   | [l, nS, script] =>
     match arms.find? (fun a => toString a.line == l), nS.toNat? with
     | some a, some n =>
+      if let some why := kv obs "inst" then
+        -- installing the arm's fake over a target of the identically written type was refused
+        return { agree := false, propOk := false, branch := "arm+install-refused",
+                 detail := "why=install-" ++ why ++ " key=c08.install-refused" ++ (if why == "sig" then " key=c09.identical-refused" else "") }
       let died := obs.any (·.startsWith "DIED")
       let recs := obs.filter (fun t => t.contains ':' && !(t.startsWith "exit=") && !(t.startsWith "sig=") && !(t.startsWith "code="))
       let exitTok := kv obs "exit"
